@@ -595,6 +595,8 @@ func checkWordSeparator(c *Ctx, p *core.Prog) {
 	}
 	nPaths, nAppend := 0, 0
 	bad := ""
+	nSpacePaths, nOpenNotSpace := 0, 0
+	badKind, badEnd := "", ""
 	for _, pr := range header.Preds {
 		if !inLoop(pr) {
 			continue
@@ -627,6 +629,63 @@ func checkWordSeparator(c *Ctx, p *core.Prog) {
 					}
 				}
 			}
+			// R05.8 / R05.10 on the same paths
+			spaceLit, notSpaceLit := false, false
+			for _, l := range pa.Lits {
+				if call, ok := l.Cond.(*ssa.Call); ok && core.StaticCalleeName(&call.Call) == "unicode.IsSpace" && len(call.Call.Args) == 1 && call.Call.Args[0] == runeVal {
+					if l.Truth {
+						spaceLit = true
+					} else {
+						notSpaceLit = true
+					}
+				}
+			}
+			if spaceLit {
+				nSpacePaths++
+				for _, l := range pa.Lits {
+					bo, ok := l.Cond.(*ssa.BinOp)
+					if !ok || (bo.Op != token.EQL && bo.Op != token.NEQ) || bo.X != runeVal {
+						continue
+					}
+					if k, isK := core.ConstInt(bo.Y); isK && k != '\n' && k != '\r' && badKind == "" {
+						badKind = fmt.Sprintf("a path on which the rune is white space also compares it with %q (%s)", rune(k), p.Pos(bo.Pos()))
+					}
+				}
+			}
+			if wordOpen && notSpaceLit && badEnd == "" {
+				anyAppend := false
+				for _, b := range pa.Blocks {
+					for _, in := range b.Instrs {
+						if call, ok := in.(*ssa.Call); ok && core.StaticCalleeName(&call.Call) == "unicode/utf8.AppendRune" {
+							anyAppend = true
+						}
+					}
+				}
+				nOpenNotSpace++
+				// a rune the punctuation table knows is replaced by what the table says, which may be nothing
+				for _, l := range pa.Lits {
+					if ex, ok := l.Cond.(*ssa.Extract); ok && l.Truth && ex.Index == 1 {
+						switch t := ex.Tuple.(type) {
+						case *ssa.Lookup:
+							anyAppend = true
+						case *ssa.Call:
+							if cal := t.Call.StaticCallee(); cal != nil && core.FuncPkgPath(cal) == v2pkg {
+								anyAppend = true
+							}
+						}
+					}
+				}
+				if !anyAppend {
+					badEnd = "a path on which a word is open and the rune is not white space adds nothing to the word"
+					for _, l := range pa.Lits {
+						if bo, ok := l.Cond.(*ssa.BinOp); ok && bo.X == runeVal && l.Truth {
+							if k, isK := core.ConstInt(bo.Y); isK {
+								badEnd += fmt.Sprintf(" (the rune is %q, %s)", rune(k), p.Pos(bo.Pos()))
+							}
+						}
+					}
+				}
+			}
 			if !appends || !wordOpen {
 				continue
 			}
@@ -646,4 +705,14 @@ func checkWordSeparator(c *Ctx, p *core.Prog) {
 		fmt.Sprintf("%d paths through one iteration, %d append the rune to an open word, all behind unicode.IsSpace(r) == false", nPaths, nAppend),
 		bad+": the test for the end of a word is something else than the library predicate (an ASCII fast path, a table), so some kind of white space - '\\r' of a CRLF line ending, a Unicode space - stays inside a word and changing the white space of a text changes its tokens")
 	c.R.RequireMin("R05.4", "iteration paths that append to an open word", nAppend, 1)
+	// R05.8: all white space is alike (the line feed, which counts lines, and the carriage return in front of it apart): on a
+	// path where unicode.IsSpace(r) held, the rune is compared with no other constant - a blank and a tab must do the same
+	c.R.Check(badKind == "", "R05.8", "tokenizeStream: one kind of white space is treated like another", p.Pos(dec.Pos()),
+		fmt.Sprintf("%d paths on which the rune is white space; it is compared with '\\n' and '\\r' only", nSpacePaths),
+		badKind+": what the tokenizer does depends on the kind of white space, so replacing blanks by tabs (or the other way round) changes the tokens")
+	// R05.10: a word is ended by white space only: while a word is open, a rune that is not white space adds to the word
+	// (itself, lower-cased, or what the punctuation table maps it to)
+	c.R.Check(badEnd == "", "R05.10", "tokenizeStream: only white space ends a word", p.Pos(dec.Pos()),
+		fmt.Sprintf("%d paths with an open word and a rune that is not white space, each appends to the word", nOpenNotSpace),
+		badEnd+": some character other than white space ends a word, so a text in which that character is written differently (a typographic dash for a hyphen) is split into other tokens")
 }
